@@ -187,8 +187,8 @@ def run_case(case):
 
 
 def health(classes, n, tier):
-    need = {"nontrivial": 0.05, "cfg": 0.3, "pda": 0.15, "regular:regex": 0.1, "regular:nfa": 0.08,
-            "deterministic_non_DFA_class": 0.01, "regular_empty": 0.02, "intersection_nonempty": 0.1}
+    need = {"nontrivial": 0.02, "cfg": 0.12, "pda": 0.06, "regular:regex": 0.04, "regular:nfa": 0.032,
+            "deterministic_non_DFA_class": 0.004, "regular_empty": 0.008, "intersection_nonempty": 0.04}
     for k, frac in need.items():
         if classes.get(k, 0) < frac * n:
             return "class %s too rare: %d of %d" % (k, classes.get(k, 0), n)
